@@ -519,7 +519,8 @@ def check_c01(tier, replay):
         assumptions=["genuine peers (traces with forged segments are excluded from C01)", "payload abstracted to (offset,len) in the model; "
                      "byte equality checked by the harness with a position-dependent pattern"],
         extra_env=dict(CORE_FORGE=0),
-        sess=dict(invariants=["C01_ReadIsNextBytes", "C01_MessageBoundaries", "C09_WireReassembles", "C02_TransferCompletes"], runs=150))
+        sess=dict(invariants=["C01_ReadIsNextBytes", "C01_MessageBoundaries", "C09_WireReassembles", "C02_TransferCompletes"], runs=150,
+                  tests="TestSessTransfer$|TestSessVector$", names=("sess_transfer", "sess_vector")))
 
 
 # C04
